@@ -431,6 +431,19 @@ def _drive(obs, mgr, xfers, spec, mode, do_cancel):
 
     def submit_all():
         try:
+            if spec.get('concurrent_submit') and not spec.get('sequential'):
+                # the manager used from several user threads at once
+                def one(x):
+                    log.add('submit.begin', label=x.label)
+                    submit_one(mgr, x)
+                    log.add('submit.end', label=x.label, error=repr(x.submit_exc) if x.submit_exc else None)
+                ths = [threading.Thread(target=one, args=(x,), name=f'vf-submit-{x.label}', daemon=True) for x in xfers]
+                for th in ths:
+                    th.start()
+                for th in ths:
+                    while th.is_alive():
+                        th.join(0.05)
+                return
             for x in xfers:
                 log.add('submit.begin', label=x.label)
                 submit_one(mgr, x)
